@@ -83,3 +83,43 @@ prop('C07',
      level_note='Trusted: Lean kernel, standard axioms, harness (regex tables from individually compiled patterns). Modelled not verified: Python re.',
      technique='Lean 4 list lemmas + order proof about an executable lexer model; token-level differential correspondence with both real lexers',
      design_ref='DESIGN.md §5 C07')
+
+prop('C01',
+     modules=['LarkVerif.Earley', 'LarkVerif.Saturate', 'LarkVerif.EarleyExec', 'LarkVerif.Props.C01'],
+     theorems=['Props.C01.accepts_iff_language', 'Props.C01.basic_accept_iff', 'Props.C01.chart_is_deduction', 'Props.C01.chart_sound', 'Props.C01.recogniser_total',
+               'EarleyProto.Chart.advance', 'Sat.saturate_closed', 'Sat.saturate_least'],
+     fingerprints=['lark/parsers/earley.py:Parser.predict_and_complete', 'lark/parsers/earley.py:Parser._parse', 'lark/parsers/earley.py:Parser.parse', 'lark/parsers/xearley.py:Parser._parse',
+                   'lark/parsers/grammar_analysis.py:calculate_sets', 'lark/parsers/grammar_analysis.py:GrammarAnalyzer.expand_rule'],
+     rule='random CFGs (1-4 nonterminals, biased to left/right/hidden-left recursion, nullable chains, unit cycles, empty alternatives, %ignore) over string and regexp terminals x '
+          '{basic, dynamic, dynamic_complete} x texts (60% sampled sentences, a third of them mutated by delete/insert/truncate/reverse, plus random strings). The Lean recogniser `accepts` runs on the lattice the '
+          'PROPERTY prescribes (basic: the token chain; dynamic: longest member prefix per terminal and position; dynamic_complete: every member prefix; built with re.fullmatch on substrings, not with lark\'s '
+          'procedure); by accepts_iff its verdict is membership in the language, compared with parse() succeeding; every chart column is also compared with lark\'s columns[i] and to_scan (snapshots through a wrapper on '
+          'predict_and_complete). Non-trivial = non-empty text; distinct by canonical hash.',
+     not_proved=['EBNF-to-BNF compilation is outside this model (C09 covers the repetition operators, C03 the shaping); the grammars here are plain BNF plus %ignore',
+                 'compile_error_iff_duplicate_alternatives (last sentence of C01) is checked only as "construction of duplicate-free grammars never fails or hangs"'],
+     assumptions=['Python re.fullmatch decides membership of a substring in a terminal\'s regular language', 'the terminal pool stays outside known finding F6 (ordered alternation / lazy quantifiers)'],
+     level_text='Theorem accepts_iff_language: for every grammar, every well-formed token lattice and start symbol, the executable recogniser accepts iff some lattice path (ignore edges anywhere) spells a sentence '
+                '(soundness + completeness, unbounded). The recogniser is total. Its verdict on the property\'s own lattice is compared with the real parser (accept/reject = property-level), and its chart with '
+                'lark\'s real columns (model tie).',
+     level_note='Trusted: Lean kernel, standard axioms, harness. Modelled not verified: Python re, the basic lexer (C07), EBNF compilation.',
+     technique='Lean 4 soundness+completeness proof of an executable lattice-Earley recogniser (saturation fixpoint) + differential correspondence of verdicts and chart columns',
+     design_ref='DESIGN.md §5 C01')
+
+prop('C08',
+     modules=['LarkVerif.Earley', 'LarkVerif.EarleyExec', 'LarkVerif.LR', 'LarkVerif.LRComplete', 'LarkVerif.Props.C08'],
+     theorems=['Props.C08.earley_viable_prefix_alive', 'Props.C08.earley_expected_backed', 'Props.C08.lalr_viable_prefix_shifts'],
+     fingerprints=['lark/parsers/earley.py:Parser._parse', 'lark/parsers/earley.py:Parser.parse', 'lark/parsers/xearley.py:Parser._parse', 'lark/parsers/lalr_parser_state.py:ParserState.feed_token',
+                   'lark/parsers/lalr_interactive_parser.py:InteractiveParser.accepts', 'lark/lexer.py:BasicLexer.next_token', 'lark/lexer.py:ContextualLexer.lex'],
+     rule='rejected inputs of the C01 stream (random CFGs x Earley lexers; sampled sentences mutated by delete/insert/truncate/reverse, random strings): the exception class, position (offset, line, column), and the '
+          'expected/allowed set must be those of the last non-empty column of the verified chart: dynamic lexers UnexpectedCharacters at that offset with exactly the terminals expected there; basic lexer UnexpectedToken '
+          'at that token with a superset; UnexpectedEOF with the final column\'s expectations when the whole text is a viable prefix. LALR: random grammars x token strings, the model LR driver on lark\'s own exported table '
+          'gives the index of the offending token; accepts() is compared with trial feeding and must be a subset of expected. Any other exception type or a timeout is a violation. Non-trivial: every rejected case; distinct by hash.',
+     not_proved=['exactness of the dynamic expected set in the direction "every reported terminal can legally come next" needs productive nonterminals; it is stated as backed-by-a-derivation (earley_expected_backed) and sampled',
+                 'the claim that no other exception type escapes is observed on every generated case, not proved'],
+     assumptions=['grammars with a post-lexer (Indenter) may raise DedentError and are outside this check (C18)'],
+     level_text='Theorems: a lattice prefix that can be extended to a sentence keeps the Earley chart column non-empty (so the error is raised at the first dead position), every chart item is backed by a derivation of the '
+                'consumed text, and for any LALR table passing the completeness certificate a viable token prefix is consumed without error. The verified chart / the model LR driver give the expected position and '
+                'continuation sets, which are compared with the real exceptions.',
+     level_note='Trusted: Lean kernel, standard axioms, harness. Modelled not verified: exception construction (line/column are read from the token / LineCounter: C06).',
+     technique='Lean 4 viable-prefix theorems (Earley chart, LALR driver) + differential correspondence of error class, position and continuation sets',
+     design_ref='DESIGN.md §5 C08')
